@@ -320,7 +320,11 @@ fn c08_check(c: &InvalidCase) -> Result<(bool, Vec<&'static str>), String> {
     let (inst, _model) = run_setup(&c.cfg, &c.setup).map_err(|v| format!("[SETUP-{}] {}", v.tag, v.msg))?;
     let a = &inst.alloc;
     let frames = c.cfg.frames;
-    let classes = c.cfg.classes.classes() as u8;
+    // a configured class id for the calls whose class is not the point, and the ids that are
+    // not configured (class lists may have gaps)
+    let ids = c.cfg.classes.ids();
+    let ok_class = Class(ids[0]);
+    let unconfigured: Vec<u8> = (0u8..8).filter(|i| !ids.contains(i)).collect();
     let mut kinds: Vec<&'static str> = vec![];
     for call in &c.calls {
         let before = g("fingerprint", || fingerprint(&inst))?;
@@ -328,7 +332,7 @@ fn c08_check(c: &InvalidCase) -> Result<(bool, Vec<&'static str>), String> {
             BadCall::Order { up, put, pos } => {
                 let order = TREE_ORDER + 1 + (up as usize % 3);
                 let frame = pick(pos, frames);
-                let rq = Request::new(order, Class(0), None);
+                let rq = Request::new(order, ok_class, None);
                 kinds.push("order_too_big");
                 if put {
                     (format!("put(frame {frame}, order {order})"), g("put", || a.put(FrameId(frame), rq))?)
@@ -345,7 +349,7 @@ fn c08_check(c: &InvalidCase) -> Result<(bool, Vec<&'static str>), String> {
                 if frame + len <= frames {
                     continue;
                 }
-                let rq = Request::new(order, Class(0), None);
+                let rq = Request::new(order, ok_class, None);
                 kinds.push("out_of_range");
                 if put {
                     (format!("put(frame {frame}, order {order}) with {frames} frames"), g("put", || a.put(FrameId(frame), rq))?)
@@ -361,7 +365,7 @@ fn c08_check(c: &InvalidCase) -> Result<(bool, Vec<&'static str>), String> {
                 }
                 let base = pick(pos, frames / len - 1) * len;
                 let frame = base + 1 + pick(off, len - 1);
-                let rq = Request::new(order, Class(0), None);
+                let rq = Request::new(order, ok_class, None);
                 kinds.push("misaligned");
                 if put {
                     (format!("put(frame {frame}, order {order})"), g("put", || a.put(FrameId(frame), rq))?)
@@ -370,7 +374,7 @@ fn c08_check(c: &InvalidCase) -> Result<(bool, Vec<&'static str>), String> {
                 }
             }
             BadCall::Class { class, put, order, pos } => {
-                let class = classes + class % (8 - classes);
+                let class = unconfigured[class as usize % unconfigured.len()];
                 let order = order as usize % (TREE_ORDER + 1);
                 let len = 1usize << order;
                 if frames < len {
@@ -409,7 +413,7 @@ fn c08_check(c: &InvalidCase) -> Result<(bool, Vec<&'static str>), String> {
             .map_err(|e| format!("[C08] ZoneAlloc::create(offset={offset}) failed: {e:?}"))?;
             let order = order as usize % (TREE_ORDER + 1);
             let frame = pick(below, offset) >> order << order;
-            let rq = Request::new(order, Class(0), None);
+            let rq = Request::new(order, ok_class, None);
             let before = g("stats", || format!("{:?}{:?}", z.stats(), z.tree_stats()))?;
             let r = if put {
                 g("zone put", || z.put(FrameId(frame), rq))?
@@ -507,7 +511,7 @@ pub fn run_c08(ctx: &Ctx) -> Finish {
         &ctx.tier,
         ctx.seed,
         "exploration",
-        "on top of a generated allocator state (random history, 1-4 trees, all classings) a generated list of invalid calls: order TREE_ORDER+1..+3; aligned blocks starting at or beyond frames-2^k+1 (first block that no longer fits and further out); frames misaligned by 1..2^k-1; class ids from the first unconfigured one up to 7; zone wrapper get/put of frames below a tree-aligned offset; construction with a metadata buffer 1..64 bytes short, shifted 1..63 bytes off alignment, or pairwise overlapping. Second phase: class lists of 1..7 distinct ids below 8 in any order (gaps, permutations, zero-slot classes) with get/put probes for all 8 ids, calls of configured classes interleaved. Oracle: exactly Err(Argument) (construction: Err(Initialization)) and an identical state fingerprint (per-frame status, all tree words, stats, tree_stats, Debug dump incl. local slots) before and after. Non-trivial = case exercising at least one invalid input; distinct by case hash.",
+        "on top of a generated allocator state (random history, 1-4 trees, all classings) a generated list of invalid calls: order TREE_ORDER+1..+3; aligned blocks starting at or beyond frames-2^k+1 (first block that no longer fits and further out); frames misaligned by 1..2^k-1; every class id below 8 that is not configured (class lists with gaps included); zone wrapper get/put of frames below a tree-aligned offset; construction with a metadata buffer 1..64 bytes short, shifted 1..63 bytes off alignment, or pairwise overlapping. Second phase: class lists of 1..7 distinct ids below 8 in any order (gaps, permutations, zero-slot classes) with get/put probes for all 8 ids, calls of configured classes interleaved. Oracle: exactly Err(Argument) (construction: Err(Initialization)) and an identical state fingerprint (per-frame status, all tree words, stats, tree_stats, Debug dump incl. local slots) before and after. Non-trivial = case exercising at least one invalid input; distinct by case hash.",
     );
     let w = Weights::base(3);
     let call = || {
@@ -598,7 +602,7 @@ fn c08_ids_check(c: &ClassIdCase) -> Result<(bool, Vec<&'static str>), String> {
     let bufs = Bufs::new(&ms);
     let alloc = g("new", || LLFree::new(frames, Init::FreeAll, &classing, unsafe { bufs.meta() }))?
         .map_err(|e| format!("[SETUP-new] {e:?}"))?;
-    let inst = Inst { alloc, bufs, classing };
+    let inst = Inst { alloc, bufs, classing, ids: (0..8).collect() };
     let a = &inst.alloc;
     let mut kinds: Vec<&'static str> = vec![];
     let dense = c.classes.iter().enumerate().all(|(i, &(id, _))| id as usize == i);
